@@ -22,7 +22,7 @@ def check_empty_guard(P, ctx):
               [('Array', P.slot('Array', 'Push', 'pop')), ('List', P.slot('List', 'Push', 'pop')), ('Tuple', P.slot('Tuple', 'Push', 'pop'))]
     for T, fname in targets:
         fn = P.fn(fname)
-        g = P.cfg(fn)
+        g = P.cfg(fn, lower_ternary=True)
         ctx.fn(fn)
         N = util.Norm(P, fn, expand_locals=True, inline=False)
         counts = count_atoms(P, fn, N)
@@ -88,7 +88,7 @@ def check_array_cursor(P, ctx):
     rule = 'C11.cursor-range'
     for which in ('iter_next', 'iter_prev'):
         fn = P.fn(P.slot('Array', 'Iter', which))
-        g = P.cfg(fn)
+        g = P.cfg(fn, lower_ternary=True)
         ctx.fn(fn)
         N = util.Norm(P, fn, expand_locals=True, inline=True)
         data, tsize, nitems, cur = ('arrow', ('param', 0), 'data'), ('arrow', ('param', 0), 'tsize'), ('arrow', ('param', 0), 'nitems'), ('param', 1)
@@ -315,13 +315,24 @@ def check_len_iter_agree(P, ctx):
         fl = P.fn(P.slot(T, 'Len', 'len'))
         ab = util.accessor_body(P, fl['name'])
         ok = ab is not None and ir.canon(ab[1]) == ('arrow', ('param', 0), 'nitems')
+        why = None
         for m in ('iter_init', 'iter_last'):
             fn = P.fn(P.slot(T, 'Iter', m))
-            g = P.cfg(fn)
+            g = P.cfg(fn, lower_ternary=True)
             N = util.Norm(P, fn, inline=False)
-            gd = [n for n in g.live() if n['kind'] == 'cond' and N.canon(n['expr']) == ir.canon(('bin', '==', ('arrow', ('param', 'self', 0), 'nitems'), ('int', 0)))]
-            ok = ok and len(gd) == 1 and g.nodes[succ_of(gd[0], True)]['kind'] == 'ret' and N.canon(g.nodes[succ_of(gd[0], True)]['expr']) == ('global', 'Terminal')
-        ctx.check(ok, rule, T, site(fl), 'len is the item count, and iteration from either end yields Terminal at once exactly when that count is 0')
+            cnt = ('arrow', ('param', 0), 'nitems')
+            # evaluated, not matched: with a count of 0 the function answers Terminal before anything it cannot decide from the
+            # count alone; with a positive count it does not answer Terminal on the strength of the count
+            r0 = util.walk_eval(g, N, {cnt: 0})
+            if not (r0[0] == 'ret' and r0[1]['expr'] is not None and N.canon(r0[1]['expr']) == ('global', 'Terminal')):
+                ok = False
+                why = why or '%s: with a count of 0 the walk ends with %s at %s' % (m, r0[0], g.describe(r0[1]))
+            for k in (1, 4):
+                r1 = util.walk_eval(g, N, {cnt: k})
+                if r1[0] == 'ret' and r1[1]['expr'] is not None and N.canon(r1[1]['expr']) == ('global', 'Terminal'):
+                    ok = False
+                    why = why or '%s: answers Terminal although the count is %d' % (m, k)
+        ctx.check(ok, rule, T, site(fl), 'len is the item count, and iteration from either end yields Terminal at once exactly when that count is 0', [why] if why else None)
     ctx.floor(rule, 4)
 
 
